@@ -31,12 +31,17 @@ ITERS = {
     "Collection": (typing.Collection[Stub], tuple), "Sequence": (typing.Sequence[Stub], tuple),
     "MutableSequence": (typing.MutableSequence[Stub], list), "AbstractSet": (typing.AbstractSet[Stub], frozenset),
     "MutableSet": (typing.MutableSet[Stub], set),
+    # as-is children: every `== as_is_stub` shortcut of the providers
+    "ListAny": (List[Any], list), "TupleVarAny": (Tuple[Any, ...], tuple), "SequenceAny": (typing.Sequence[Any], tuple),
+    "DequeObject": (Deque[object], deque),
 }
+ANY_NAMES = ("ListAny", "TupleVarAny", "SequenceAny", "DequeObject", "DictAny", "Tuple2Any")
 DICTS = {
     "Dict": (Dict[KStub, Stub], dict), "Mapping": (typing.Mapping[KStub, Stub], dict),
     "MutableMapping": (typing.MutableMapping[KStub, Stub], dict), "DefaultDict": (DefaultDict[KStub, Stub], defaultdict),
+    "DictAny": (Dict[Any, Any], dict),
 }
-TUPLES = {"Tuple2": (Tuple[Stub, Stub], 2), "Tuple1": (Tuple[Stub], 1), "Tuple3": (Tuple[Stub, KStub, Stub], 3)}
+TUPLES = {"Tuple2": (Tuple[Stub, Stub], 2), "Tuple1": (Tuple[Stub], 1), "Tuple3": (Tuple[Stub, KStub, Stub], 3), "Tuple2Any": (Tuple[Any, object], 2)}
 UNIONS = {"Optional": Optional[Stub], "UnionStr": Union[Stub, str], "UnionStrNone": Union[Stub, str, None],
           "UnionK": Union[KStub, Stub]}
 ALL_TYPES = {}
@@ -128,6 +133,11 @@ def ref_children(name, strict, data):
 def tuple_child_kind(name, i):
     return "k" if (name == "Tuple3" and i == 1) else "v"
 
+def cf(name, c):
+    return False if name in ANY_NAMES else child_fails(c)
+def kcf(name, c):
+    return False if name in ANY_NAMES else kchild_fails(c)
+
 def expected_failures(name, strict, data):
     """list of (container_trail_element(s), child datum, rel_trail) for every child that must fail, in input order;
     None if the reference does not apply (root error / one-shot iterator)"""
@@ -137,21 +147,27 @@ def expected_failures(name, strict, data):
     out = []
     if r[0] == "iter":
         for i, c in enumerate(r[1]):
-            if child_fails(c): out.append(((i,), c, stub_rel_trail(c) if type(c) is int else ()))
+            if cf(name, c): out.append(((i,), c, stub_rel_trail(c) if type(c) is int else ()))
     elif r[0] == "tuple":
         for i, c in enumerate(r[1]):
             if tuple_child_kind(name, i) == "k":
-                if kchild_fails(c): out.append(((i,), c, ()))
-            elif child_fails(c): out.append(((i,), c, stub_rel_trail(c) if type(c) is int else ()))
+                if kcf(name, c): out.append(((i,), c, ()))
+            elif cf(name, c): out.append(((i,), c, stub_rel_trail(c) if type(c) is int else ()))
     elif r[0] == "dict":
         for k, v in r[1]:
-            if kchild_fails(k): out.append(((ItemKey(k),), k, ()))
-            if child_fails(v): out.append(((k,), v, stub_rel_trail(v) if type(v) is int else ()))
+            if kcf(name, k): out.append(((ItemKey(k),), k, ()))
+            if cf(name, v): out.append(((k,), v, stub_rel_trail(v) if type(v) is int else ()))
     return out
+
+def seq_bug_for(name, rk, xs):
+    return False if name in ANY_NAMES else seq_bug(rk, xs)
 
 def seq_bug(rk, xs):
     """does the datum contain a child that makes the (user supplied) stub raise a non-LoadError?"""
     return rk in (0, 1, 2, 6, 7) and any(child_is_bug(c) for c in xs)
+
+def dict_bug_for(name, rk, k0, k1, v0, v1, n):
+    return False if name in ANY_NAMES else dict_bug(rk, k0, k1, v0, v1, n)
 
 def dict_bug(rk, k0, k1, v0, v1, n):
     d = dict_data(rk, k0, k1, v0, v1, n)
@@ -164,6 +180,10 @@ def expected_value(name, strict, data):
     r = ref_children(name, strict, data)
     if r[0] == "root_err" or r[1] == "ITER":
         return None
+    if name in ANY_NAMES:
+        if r[0] == "iter": return ("v", ITERS[name][1](r[1]))
+        if r[0] == "tuple": return ("v", tuple(r[1]))
+        return ("v", dict(r[1]))
     if r[0] == "iter":
         return ("v", ITERS[name][1](Stub(c) for c in r[1]))
     if r[0] == "tuple":
@@ -412,10 +432,10 @@ def c07_union(name, d):
 '''
 
 ITER_NAMES = ["List", "list", "TupleVar", "Set", "FrozenSet", "Deque", "Iterable", "Reversible", "Collection",
-              "Sequence", "MutableSequence", "AbstractSet", "MutableSet"]
-DICT_NAMES = ["Dict", "Mapping", "MutableMapping", "DefaultDict"]
-TUPLE_NAMES = ["Tuple2", "Tuple1", "Tuple3"]
-TUPLES_LEN = {"Tuple2": 2, "Tuple1": 1, "Tuple3": 3}
+              "Sequence", "MutableSequence", "AbstractSet", "MutableSet", "ListAny", "TupleVarAny", "SequenceAny", "DequeObject"]
+DICT_NAMES = ["Dict", "Mapping", "MutableMapping", "DefaultDict", "DictAny"]
+TUPLE_NAMES = ["Tuple2", "Tuple1", "Tuple3", "Tuple2Any"]
+TUPLES_LEN = {"Tuple2": 2, "Tuple1": 1, "Tuple3": 3, "Tuple2Any": 2}
 UNION_NAMES = ["Optional", "UnionStr", "UnionStrNone", "UnionK"]
 
 CODE_PRE_NOBUG = "all(c >= -4 and c != -2 for c in xs)"
@@ -427,7 +447,7 @@ def l2_module(prop: str, tier: str) -> Module:
     n = 2 if quick else 3
     tmo = 60 if quick else 900
     m = Module(f"{prop.lower()}_l2").pre(SETUP).pre(UNION_SETUP)
-    iter_names = ITER_NAMES if not quick or prop in ("C02", "C04") else ["List", "TupleVar", "Set", "Deque", "Sequence", "MutableSet"]
+    iter_names = ITER_NAMES if not quick or prop in ("C02", "C04") else ["List", "TupleVar", "Set", "Deque", "Sequence", "MutableSet", "ListAny", "SequenceAny"]
     fam = "L2 combinators with stub children"
     bnd = f"children: symbolic stub codes (>=0 ok payload, -1/-3/-4 LoadError with 0/1/2-element relative trail, -2 user bug where allowed), len<= {n}; 9 root kinds; 6 modes"
 
@@ -435,7 +455,7 @@ def l2_module(prop: str, tier: str) -> Module:
         data = "lambda: root_data(rk, xs)"
         if prop == "C20":
             return f"return c20_l2({name!r}, {data})"
-        return f"return {prop.lower()}_l2({name!r}, {data}, seq_bug(rk, xs))"
+        return f"return {prop.lower()}_l2({name!r}, {data}, seq_bug_for({name!r}, rk, xs))"
 
     code_pre = CODE_PRE_BUG if prop in ("C04", "C06") else CODE_PRE_NOBUG
     for name in iter_names:
@@ -460,7 +480,7 @@ def l2_module(prop: str, tier: str) -> Module:
         if prop == "C20":
             b = f"return c20_l2({name!r}, lambda: {dd})"
         else:
-            b = f"return {prop.lower()}_l2({name!r}, lambda: {dd}, dict_bug(rk, k0, k1, v0, v1, n))"
+            b = f"return {prop.lower()}_l2({name!r}, lambda: {dd}, dict_bug_for({name!r}, rk, k0, k1, v0, v1, n))"
         kpre = "0 <= k0 <= 2 and 0 <= k1 <= 1" if prop in ("C04", "C06") else "1 <= k0 <= 2 and 0 <= k1 <= 1"
         vpre = "v0 >= -4 and v1 >= -4" + ("" if prop in ("C04", "C06") else " and v0 != -2 and v1 != -2")
         m.ob(f"l2_{name}", "rk: int, k0: int, k1: int, v0: int, v1: int, n: int", b,
